@@ -7,16 +7,23 @@
 (***************************************************************************)
 EXTENDS Cyclo
 \* TLC builds [x \in S |-> e] lazily and re-evaluates e at every application: force every level.
+\* Strict binding: TLC re-evaluates LET definitions and operator ARGUMENTS at every reference (measured: a
+\* normalisation of a D x D matrix passed as an argument cost D^2 re-evaluations).  The bound variable of a set
+\* constructor is bound to a VALUE: Bind(v, F) evaluates v once and then F(that value).  Every operator below that
+\* takes a matrix binds it first.
+Bind(v, F(_)) == CHOOSE r \in {F(t) : t \in {v}} : TRUE
+Bind2(v, w, F(_, _)) == CHOOSE r \in {F(t[1], t[2]) : t \in {<<v, w>>}} : TRUE
 Dim(m) == Len(m.e)
 NCols(m) == Len(m.e[1])
 Ident(d) == [k |-> 0, e |-> TLCEval([i \in 1..d |-> TLCEval([j \in 1..d |-> IF i = j THEN One ELSE Zero])])]
 BasisCol(d, b) == [k |-> 0, e |-> TLCEval([i \in 1..d |-> <<IF i = b+1 THEN One ELSE Zero>>])]
 
 AllEvenM(m) == \A i \in 1..Len(m.e) : \A j \in 1..Len(m.e[i]) : AllEven(m.e[i][j])
-RECURSIVE Norm(_)
-Norm(m) == IF m.k > 0 /\ AllEvenM(m)
-           THEN Norm([k |-> m.k - 1, e |-> TLCEval([i \in 1..Len(m.e) |-> TLCEval([j \in 1..Len(m.e[i]) |-> Halve(m.e[i][j])])])])
-           ELSE m
+RECURSIVE NormV(_)
+NormV(m) == IF m.k > 0 /\ AllEvenM(m)
+            THEN Bind([k |-> m.k - 1, e |-> TLCEval([i \in 1..Len(m.e) |-> TLCEval([j \in 1..Len(m.e[i]) |-> Halve(m.e[i][j])])])], LAMBDA v : NormV(v))
+            ELSE m
+Norm(m) == Bind(m, LAMBDA v : NormV(v))
 MaxAbsM(m) == LET mx(a,b) == IF a > b THEN a ELSE b
                   R[i \in 0..Len(m.e)] == IF i = 0 THEN 0 ELSE
                      LET Cc[j \in 0..Len(m.e[i])] == IF j = 0 THEN 0 ELSE mx(Cc[j-1], MaxAbs(m.e[i][j]))
@@ -33,54 +40,68 @@ Bit(i, w, n) == (i \div 2^(n-w)) % 2
 
 (* Apply a q-wire gate g (2^q x 2^q, [k,e]) on wires ws (sequence of distinct wires in 1..n)  *)
 (* to the matrix u (2^n rows, any number of columns) from the left.                            *)
-ApplyGate(u, g, ws, n) ==
-  LET q == Len(ws)
-      D == 2^n
-      Q == 2^q
-      sub == [i \in 0..D-1 |->
-                LET S[t \in 0..q] == IF t = 0 THEN 0 ELSE 2*S[t-1] + Bit(i, ws[t], n) IN S[q]]
-      msk == [i \in 0..D-1 |->
-                LET S[t \in 0..q] == IF t = 0 THEN i ELSE S[t-1] - Bit(i, ws[t], n) * 2^(n-ws[t]) IN S[q]]
-      plc == [a \in 0..Q-1 |->
-                LET S[t \in 0..q] == IF t = 0 THEN 0 ELSE S[t-1] + Bit(a, t, q) * 2^(n-ws[t]) IN S[q]]
-      nc == Len(u.e[1])
-      row(i) == LET r == sub[i]  b == msk[i] IN
-                TLCEval([j \in 1..nc |->
-                   LET S[a \in 0..Q] == IF a = 0 THEN Zero ELSE
-                         LET ge == g.e[r+1][a] IN
-                         IF ge = Zero THEN S[a-1] ELSE Add(S[a-1], EMul(ge, u.e[b + plc[a-1] + 1][j]))
-                   IN S[Q]])
-  IN Norm([k |-> u.k + g.k, e |-> TLCEval([i \in 1..D |-> row(i-1)])])
+(* Gate entries are almost always sparse ring elements (monomials, cos = (z^a + z^-a)/2, ...):  *)
+(* each row of the gate is flattened once into terms <<a, shift, coef>> meaning coef*zeta^shift *)
+(* times column a, and an entry of the result is a fused fold acc + coef * rot(x, shift).       *)
+SparseOf(x) == SelectSeq([j \in 1..H |-> <<j-1, x[j]>>], LAMBDA t : t[2] # 0)
+RowTerms(g, r, Q) ==
+  LET S[a \in 0..Q] == IF a = 0 THEN <<>> ELSE
+        Bind(SparseOf(g.e[r][a]), LAMBDA sp : S[a-1] \o [t \in 1..Len(sp) |-> <<a, sp[t][1], sp[t][2]>>])
+  IN S[Q]
+\* acc + c * zeta^sh * x   (one fused pass over the H coefficients)
+AddRot(acc, x, sh, c) ==
+  TLCEval([m \in IdxH |-> LET s == (m-1-sh) % N IN acc[m] + c * (IF s < H THEN x[s+1] ELSE -x[s-H+1])])
+\* index tables for a gate on wires ws of an n-wire register
+SubIdx(ws, n) == LET q == Len(ws) IN TLCEval([i \in 0..2^n-1 |->
+                LET S[t \in 0..q] == IF t = 0 THEN 0 ELSE 2*S[t-1] + Bit(i, ws[t], n) IN S[q]])
+MskIdx(ws, n) == LET q == Len(ws) IN TLCEval([i \in 0..2^n-1 |->
+                LET S[t \in 0..q] == IF t = 0 THEN i ELSE S[t-1] - Bit(i, ws[t], n) * 2^(n-ws[t]) IN S[q]])
+PlcIdx(ws, n) == LET q == Len(ws) IN TLCEval([a \in 0..2^q-1 |->
+                LET S[t \in 0..q] == IF t = 0 THEN 0 ELSE S[t-1] + Bit(a, t, q) * 2^(n-ws[t]) IN S[q]])
+ApplyRows(u, terms, sub, msk, plc, D, nc) ==
+  TLCEval([i \in 1..D |->
+     Bind(terms[sub[i-1]+1], LAMBDA tr :
+       TLCEval([j \in 1..nc |->
+          LET S[t \in 0..Len(tr)] == IF t = 0 THEN Zero ELSE
+                AddRot(S[t-1], u.e[msk[i-1] + plc[tr[t][1]-1] + 1][j], tr[t][2], tr[t][3])
+          IN S[Len(tr)]]))])
+ApplyGate(uu, gg, ws, n) == Bind2(uu, gg, LAMBDA u, g :
+  Bind(TLCEval([r \in 1..2^Len(ws) |-> TLCEval(RowTerms(g, r, 2^Len(ws)))]), LAMBDA terms :
+  Bind(SubIdx(ws, n), LAMBDA sub :
+  Bind(MskIdx(ws, n), LAMBDA msk :
+  Bind(PlcIdx(ws, n), LAMBDA plc :
+    Norm([k |-> u.k + g.k, e |-> ApplyRows(u, terms, sub, msk, plc, 2^n, Len(u.e[1]))]))))))
 
 \* plain matrix product (square or rectangular), a*b
-MatMul(a, b) ==
+MatMul(aa, bb) == Bind2(aa, bb, LAMBDA a, b :
   LET inner == Len(b.e) IN
   Norm([k |-> a.k + b.k,
         e |-> TLCEval([i \in 1..Len(a.e) |-> TLCEval([j \in 1..Len(b.e[1]) |->
                  LET S[t \in 0..inner] == IF t = 0 THEN Zero ELSE
                        IF a.e[i][t] = Zero \/ b.e[t][j] = Zero THEN S[t-1]
                        ELSE Add(S[t-1], EMul(a.e[i][t], b.e[t][j]))
-                 IN S[inner]])])])
-Dagger(a) == [k |-> a.k, e |-> TLCEval([i \in 1..Len(a.e[1]) |-> TLCEval([j \in 1..Len(a.e) |-> Conj(a.e[j][i])])])]
-Kron(a, b) ==
+                 IN S[inner]])])]))
+Dagger(aa) == Bind(aa, LAMBDA a : [k |-> a.k, e |-> TLCEval([i \in 1..Len(a.e[1]) |-> TLCEval([j \in 1..Len(a.e) |-> Conj(a.e[j][i])])])])
+Kron(aa, bb) == Bind2(aa, bb, LAMBDA a, b :
   LET rb == Len(b.e)  cb == Len(b.e[1]) IN
   Norm([k |-> a.k + b.k,
         e |-> TLCEval([i \in 1..Len(a.e)*rb |-> TLCEval([j \in 1..Len(a.e[1])*cb |->
-                 EMul(a.e[((i-1) \div rb) + 1][((j-1) \div cb) + 1], b.e[((i-1) % rb) + 1][((j-1) % cb) + 1])])])])
+                 EMul(a.e[((i-1) \div rb) + 1][((j-1) \div cb) + 1], b.e[((i-1) % rb) + 1][((j-1) % cb) + 1])])])]))
 
 \* exact equality of denoted matrices (both normalised => compare after aligning exponents)
-RECURSIVE ScaleUp(_, _)
-ScaleUp(m, k) == IF m.k >= k THEN m ELSE
-   ScaleUp([k |-> m.k + 1, e |-> TLCEval([i \in 1..Len(m.e) |-> TLCEval([j \in 1..Len(m.e[i]) |-> Scale(2, m.e[i][j])])])], k)
-EqExact(a, b) == LET kk == IF a.k > b.k THEN a.k ELSE b.k IN ScaleUp(a, kk).e = ScaleUp(b, kk).e
+RECURSIVE ScaleUpV(_, _)
+ScaleUpV(m, k) == IF m.k >= k THEN m ELSE
+   Bind([k |-> m.k + 1, e |-> TLCEval([i \in 1..Len(m.e) |-> TLCEval([j \in 1..Len(m.e[i]) |-> Scale(2, m.e[i][j])])])], LAMBDA v : ScaleUpV(v, k))
+ScaleUp(mm, k) == Bind(mm, LAMBDA m : ScaleUpV(m, k))
+EqExact(aa, bb) == Bind2(aa, bb, LAMBDA a, b : LET kk == IF a.k > b.k THEN a.k ELSE b.k IN ScaleUp(a, kk).e = ScaleUp(b, kk).e)
 \* equality up to a scalar: cross-multiplication against a pivot of a (no division)
 Pivot(a) == CHOOSE ij \in (1..Len(a.e)) \X (1..Len(a.e[1])) : ~IsZero(a.e[ij[1]][ij[2]])
 IsZeroM(a) == \A i \in 1..Len(a.e) : \A j \in 1..Len(a.e[1]) : IsZero(a.e[i][j])
-EqUpToScalar(a, b) ==
+EqUpToScalar(aa, bb) == Bind2(aa, bb, LAMBDA a, b :
   IF IsZeroM(a) THEN IsZeroM(b) ELSE
-  LET p == Pivot(a)  pa == a.e[p[1]][p[2]]  pb == b.e[p[1]][p[2]] IN
+  Bind(Pivot(a), LAMBDA p : Bind2(a.e[p[1]][p[2]], b.e[p[1]][p[2]], LAMBDA pa, pb :
   /\ ~IsZero(pb)
   /\ \A i \in 1..Len(a.e) : \A j \in 1..Len(a.e[1]) :
-        Mul(a.e[i][j], pb) = Mul(b.e[i][j], pa)
-IsUnitary(a) == EqExact(MatMul(Dagger(a), a), Ident(Len(a.e)))
+        Mul(a.e[i][j], pb) = Mul(b.e[i][j], pa))))
+IsUnitary(aa) == Bind(aa, LAMBDA a : EqExact(MatMul(Dagger(a), a), Ident(Len(a.e))))
 =============================================================================
